@@ -73,7 +73,7 @@ def run(ctx):
     viol = 0
     races = 0
     if ctx.prop == "C10":
-        stats = [ctx.record("poolseq")]
+        stats = [ctx.record("poolseq"), ctx.record("poolzero")]
     else:
         env = {"GORACE": "halt_on_error=0 exitcode=0"}
         st = ctx.record("poolconc", race=True, env=env)
